@@ -132,7 +132,11 @@ def dialect_tables(chk: Check) -> dict:
     out = {}
     for d in Dialects:
         name = d.value
-        inst = Dialect.get_or_raise(name or None)
+        try:
+            inst = Dialect.get_or_raise(name or None)
+        except Exception as ex:  # noqa  (a dialect module that parses SQL at import time can fail on a broken parser)
+            chk.broken.append({"kind": "translator", "what": f"C01 translator: dialect {name!r} does not load: {type(ex).__name__}: {str(ex)[:120]}"})
+            continue
         Pc, Gc = inst.parser_class, inst.generator_class
         lv = {}
         for L in LEVELS:
@@ -163,7 +167,7 @@ def dialect_tables(chk: Check) -> dict:
         gen = sorted(set(gen))
         if mismatched:
             chk.cov.setdefault("operator_text_lexes_to_other_token", []).extend(mismatched)
-            if entry_ok(name):
+            if entry_ok(name) and all(getattr(Pc, m) is getattr(Parser, m) for m in LADDER_METHODS):
                 chk.broken.append({"kind": "translator", "what": f"C01 tables: operator text does not lex back to its parser entry: {mismatched}"})
         plain = []
         for cn in ATOM_CLASSES:
@@ -193,7 +197,10 @@ def time_tables() -> dict:
     _, _, Dialect, Dialects, _, _ = sg()
     out = {}
     for d in Dialects:
-        inst = Dialect.get_or_raise(d.value or None)
+        try:
+            inst = Dialect.get_or_raise(d.value or None)
+        except Exception:  # noqa
+            continue
         out[d.value] = (sorted(inst.TIME_MAPPING.items()), sorted(inst.INVERSE_TIME_MAPPING.items()))
     return out
 
@@ -299,11 +306,11 @@ COLS = ["a", "b", "c", "x", "y", "col1"]
 TABS = ["t", "u1"]
 
 
-M_E0, M_E1, M_Q0, M_Q1 = "\u27e6", "\u27e7", "\u27ea", "\u27eb"   # derivation markers (expression / query spans)
+M_E0, M_E1, M_Q0, M_Q1, M_C0, M_C1 = "\u27e6", "\u27e7", "\u27ea", "\u27eb", "\u27ec", "\u27ed"   # derivation markers (expression / query / optional-clause spans)
 
 
 def unmark(m: str) -> str:
-    for c in (M_E0, M_E1, M_Q0, M_Q1):
+    for c in (M_E0, M_E1, M_Q0, M_Q1, M_C0, M_C1):
         m = m.replace(c, "")
     return m
 
@@ -599,9 +606,9 @@ class QGen:
         r = self.rng
         s = self.g.level(r.choice([0, 4]), depth)
         if r.random() < 0.4:
-            s += r.choice([" DESC", " ASC"])
+            s += M_C0 + r.choice([" DESC", " ASC"]) + M_C1
         if r.random() < 0.35:
-            s += r.choice([" NULLS FIRST", " NULLS LAST"])
+            s += M_C0 + r.choice([" NULLS FIRST", " NULLS LAST"]) + M_C1
         return s
 
     def source(self, depth):
@@ -609,7 +616,7 @@ class QGen:
         if depth > 0 and r.random() < 0.25:
             return "(" + self.query(depth - 1) + ") AS " + r.choice(["s", "q1"])
         t = r.choice(["t", "u1", "db.t"])
-        return t + (" AS " + r.choice(["x", "y"]) if r.random() < 0.4 else "")
+        return t + (M_C0 + " AS " + r.choice(["x", "y"]) + M_C1 if r.random() < 0.4 else "")
 
     def select(self, depth, single=False):
         return M_Q0 + self.select0(depth, single) + M_Q1
@@ -624,25 +631,28 @@ class QGen:
         for i in range(n):
             it = self.g.level(0, depth)
             if r.random() < 0.3:
-                it += " AS " + r.choice(["c1", "c2", "z"])
+                it += M_C0 + " AS " + r.choice(["c1", "c2", "z"]) + M_C1
             items.append(it)
-        s = "SELECT " + ("DISTINCT " if r.random() < 0.1 else "") + ", ".join(items)
+        s = "SELECT " + (M_C0 + "DISTINCT " + M_C1 if r.random() < 0.1 else "") + items[0] + "".join(M_C0 + ", " + it + M_C1 for it in items[1:])
         if r.random() < 0.85:
             s += " FROM " + self.source(depth)
             while r.random() < 0.3:
-                s += " " + r.choice(["JOIN", "LEFT JOIN", "INNER JOIN", "CROSS JOIN", "FULL JOIN"]) + " " + self.source(depth)
-                if "CROSS" not in s.rsplit("JOIN", 1)[0][-7:]:
-                    s += " ON " + self.g.level(0, depth)
+                jk = r.choice(["JOIN", "LEFT JOIN", "INNER JOIN", "CROSS JOIN", "FULL JOIN"])
+                j = " " + jk + " " + self.source(depth)
+                if jk != "CROSS JOIN":
+                    j += " ON " + self.g.level(0, depth)
+                s += M_C0 + j + M_C1
             if r.random() < 0.45:
-                s += " WHERE " + self.g.level(0, depth)
+                s += M_C0 + " WHERE " + self.g.level(0, depth) + M_C1
             if r.random() < 0.2:
-                s += " GROUP BY " + ", ".join(self.g.level(4, depth) for _ in range(r.choice([1, 2])))
+                gb = " GROUP BY " + ", ".join(self.g.level(4, depth) for _ in range(r.choice([1, 2])))
                 if r.random() < 0.4:
-                    s += " HAVING " + self.g.level(0, depth)
+                    gb += M_C0 + " HAVING " + self.g.level(0, depth) + M_C1
+                s += M_C0 + gb + M_C1
             if r.random() < 0.3:
-                s += " ORDER BY " + ", ".join(self.order(depth) for _ in range(r.choice([1, 1, 2])))
+                s += M_C0 + " ORDER BY " + ", ".join(self.order(depth) for _ in range(r.choice([1, 1, 2]))) + M_C1
             if r.random() < 0.2:
-                s += " LIMIT " + r.choice(["1", "10"])
+                s += M_C0 + " LIMIT " + r.choice(["1", "10"]) + M_C1
         return s
 
     def query0(self, depth):
@@ -658,12 +668,14 @@ class QGen:
 def verdict(s: str, d: str):
     """None if the property holds for source text s in dialect d (or s does not parse in d), else (kind, detail)"""
     sqlglot, exp, *_ = sg()
-    from sqlglot.errors import SqlglotError
+    from sqlglot.errors import SqlglotError, ErrorLevel
 
     dd = d or None
+    # generation that sqlglot itself flags as lossy (UnsupportedError under unsupported_level=RAISE) is not a
+    # same-dialect rendering of s: such inputs are skipped, not counted as violations
     try:
         e = sqlglot.parse_one(s, dialect=dd)
-        s1 = e.sql(dialect=dd)
+        s1 = e.sql(dialect=dd, unsupported_level=ErrorLevel.RAISE)
     except SqlglotError:
         return None
     except Exception:  # noqa  (internal errors on the way in are C05's subject)
@@ -673,7 +685,7 @@ def verdict(s: str, d: str):
     except Exception as ex:  # noqa
         return "noparse", f"generated text does not parse again: {s1!r}: {type(ex).__name__}"
     try:
-        s2 = e1.sql(dialect=dd)
+        s2 = e1.sql(dialect=dd, unsupported_level=ErrorLevel.IGNORE)
     except Exception as ex:  # noqa
         return "noparse", f"re-parsed tree does not generate: {s1!r}: {type(ex).__name__}"
     if s2 != s1:
@@ -704,11 +716,11 @@ def skeleton(s: str, d: str) -> str:
 def spans(m: str):
     out, st = [], []
     for i, ch in enumerate(m):
-        if ch in (M_E0, M_Q0):
+        if ch in (M_E0, M_Q0, M_C0):
             st.append((ch, i))
-        elif ch in (M_E1, M_Q1) and st:
+        elif ch in (M_E1, M_Q1, M_C1) and st:
             k, a = st.pop()
-            out.append(("E" if k == M_E0 else "Q", a, i))
+            out.append(("E" if k == M_E0 else "Q" if k == M_Q0 else "C", a, i))
     return out
 
 
@@ -727,6 +739,9 @@ def shrink(m: str, d: str, kind: str, deadline: float) -> str:
         sp = spans(cur)
         cands = []
         for k, a, b in sp:
+            if k == "C":
+                cands.append(cur[:a] + cur[b + 1:])
+                continue
             cands.append((M_Q0 + "SELECT " + cur[a:b + 1] + M_Q1) if k == "E" else cur[a:b + 1])
             for k2, a2, b2 in sp:
                 if k2 == k and a < a2 and b2 < b:
